@@ -35,6 +35,43 @@ KEYS = {(TEXTNS, u'name'): 0, (OFFICENS, u'value-type'): 1, (OFFICENS, u'value')
         (OFFICENS, u'currency'): 7, (TEXTNS, u'formula'): 8}
 
 NAME_POOL = [u'a', u'b', u'c', u'field one', u'x<&>"\'y', u'né中', u'Z9', u'd\U0001F600', u'e', u'f']
+# names with the boundary characters of the writer's character filter, TAB / LF / CR and noncharacters
+EDGE_NAMES = [u'n\x85l', u'del\x7e~', u't\tab', u'l\nf', u'c\rr', u'nb\xa0sp', u'\ufdcf\ufdd0', u'\ufdef\ufdf0', u'\ud7ff\ue000',
+              u'\ufffdr', u'\U0001fffdq', u'c1\x84\x86', u'\x7f\x9f']
+# every boundary of the character classes an XML writer may treat specially.  What is expected of them (see `lenient`):
+#   * not an XML 1.0 Char (U+FFFE, C0 controls ...): cannot be written; U+FFFD is expected
+#   * "discouraged" (U+007F-0084, U+0086-009F, U+nFFFE/F of planes 1-16): odfpy writes U+FFFD although XML could hold
+#     them - property C02's known finding, not judged here: either form is accepted
+#   * everything else - U+0085 NEL, U+007E, U+00A0, U+FDD0..FDEF, U+D7FF, U+E000, U+FFFD, U+1FFFD, TAB, LF, CR -
+#     must come back exactly
+EDGE_CHARS = [u'\x85', u'\x84', u'\x86', u'\x7e', u'\x7f', u'\x9f', u'\xa0', u'\ufdcf', u'\ufdd0', u'\ufdef', u'\ufdf0',
+              u'\ufffd', u'\ufffe', u'\ud7ff', u'\ue000', u'\U0001fffd', u'\U0001fffe', u'\U0010fffd', u'\U0010ffff',
+              u'\t', u'\n', u'\r', u'\x01', u'\x1f', u'\u2028']
+
+
+def is_xml_char(o):
+    return o in (0x9, 0xA, 0xD) or 0x20 <= o <= 0xD7FF or 0xE000 <= o <= 0xFFFD or 0x10000 <= o <= 0x10FFFF
+
+
+def is_discouraged(o):
+    return 0x7F <= o <= 0x84 or 0x86 <= o <= 0x9F or (o >= 0x10000 and (o & 0xFFFF) >= 0xFFFE)
+
+
+def lenient(x):
+    """normal form for comparing what was asked for with what an XML reading of the output gives: characters XML
+    cannot hold and the discouraged ones (C02's finding) count as U+FFFD; every other character counts as itself"""
+    if isinstance(x, str):
+        return u''.join(u'\ufffd' if (not is_xml_char(ord(c)) or is_discouraged(ord(c))) else c for c in x)
+    if isinstance(x, (list, tuple)):
+        return type(x)(lenient(y) for y in x)
+    if isinstance(x, dict):
+        return dict((lenient(k), lenient(v)) for k, v in x.items())
+    return x
+
+
+def source_safe(sv):
+    """a string that may stand in the hand-written SOURCE: XML Chars only"""
+    return u''.join(c for c in sv if is_xml_char(ord(c)))
 STR_ALPHA = [u'a', u'b', u' ', u'  ', u'<', u'&', u'>', u'"', u"'", u'\t', u'\n', u'\r', u'é', u'中', u'\U0001F600', u'0',
              u'&amp;', u']]>', u' ', u' ']
 INITIAL = {u'string': [u'old', u'', u'o<l>d'], u'float': [u'1.5', u'0'], u'percentage': [u'0.25'], u'currency': [u'9.99'],
@@ -49,7 +86,7 @@ def rand_string(rng):
     if r < 0.2:
         return u''
     n = rng.choice([1, 1, 2, 3, 5, 9])
-    return u''.join(rng.choice(STR_ALPHA) for _ in range(n))
+    return u''.join(rng.choice(EDGE_CHARS) if rng.random() < 0.25 else rng.choice(STR_ALPHA) for _ in range(n))
 
 
 def gen_case(rng):
@@ -65,14 +102,19 @@ def gen_case(rng):
         elif r < 0.10:
             t = None
         name = rng.choice(NAME_POOL) if rng.random() < 0.25 else NAME_POOL[i % len(NAME_POOL)] + (u'' if i < len(NAME_POOL) else str(i))
+        if rng.random() < 0.2:
+            name = rng.choice(EDGE_NAMES)
         a = [(u'text:name', name)]
         if t is not None:
             a.append((u'office:value-type', t))
         vattr = ATTR_PREFIXED[spec_attr(t)[1]]
         if rng.random() < 0.9:
-            a.append((vattr, rng.choice(INITIAL.get(t, [u'7']))))
+            init = rng.choice(INITIAL.get(t, [u'7']))
+            if t in (u'string', u'zzz', None) and rng.random() < 0.4:
+                init = source_safe(rand_string(rng))
+            a.append((vattr, init))
         if t == u'currency':
-            a.append((u'office:currency', u'EUR'))
+            a.append((u'office:currency', rng.choice([u'EUR', u'E\x85R', u'\xa0\x7e', u'a\tb\nc\rd', u'\ufdd0\ud7ff\ue000'])))
         if rng.random() < 0.15 and vattr != u'office:value':
             a.insert(rng.randint(1, len(a)), (u'office:value', u'99'))          # stale attribute of another type
         if rng.random() < 0.08 and vattr != u'office:string-value':
@@ -87,7 +129,7 @@ def gen_case(rng):
     names = [dict(a)[u'text:name'] for a in decls + header]
     paras = []
     for i in range(rng.choice([1, 2, 3, 4])):
-        paras.append([rand_string(rng) or u'p', rng.choice(names) if names and rng.random() < 0.5 else None])
+        paras.append([source_safe(rand_string(rng)) or u'p', rng.choice(names) if names and rng.random() < 0.5 else None])
     # ---- update dictionary
     data = {}
     by_name = {}
@@ -136,6 +178,12 @@ def ref_update_decl(d, data):
     nm = d.get((TEXTNS, u'name'))
     if nm in data:
         d[spec_attr(d.get((OFFICENS, u'value-type')))] = data[nm]
+    elif nm is not None:
+        # the tree may come from a load+save, where the writer's filter has already turned discouraged characters of
+        # the name into U+FFFD: match names in lenient form
+        for k in data:
+            if lenient(k) == nm and lenient(k) != k:
+                d[spec_attr(d.get((OFFICENS, u'value-type')))] = data[k]
     return d
 
 
@@ -216,6 +264,12 @@ def show_items(items):
         else:
             out.append('F %d' % len(it[1]) + ''.join(' %d %s' % (k, enc_str(v)) for k, v in it[1]))
     return ' '.join(out)
+
+
+def len_items(items):
+    """items with every string in `lenient` form: the model has no character filter of the XML writer (that is
+    properties C01 / C02), so model and implementation are compared modulo that filter's known effect"""
+    return [it if it[0] == 'O' else ('F', [(k, lenient(v)) for k, v in it[1]]) for it in items]
 
 
 def opt(w):
@@ -303,13 +357,14 @@ def run_case(chk, drv, case, tmpdir=None, lexical=False):
     # ---------------- model
     if drv is not None:
         intern, akeys = Interner(), Interner()
-        itemsA = items_of(A, ordered_decl_attrs(A), intern, akeys)
-        line = 'update %d %s %d %s' % (len(data), ' '.join('%s %s' % (enc_str(k), enc_str(v)) for k, v in sorted(data.items())),
+        itemsA = len_items(items_of(A, ordered_decl_attrs(A), intern, akeys))
+        ldata = dict((lenient(k), lenient(v)) for k, v in data.items())
+        line = 'update %d %s %d %s' % (len(ldata), ' '.join('%s %s' % (enc_str(k), enc_str(v)) for k, v in sorted(ldata.items())),
                                        len(itemsA), show_items(itemsA))
         ans = drv.ask(' '.join(line.split()))
         ans_list = drv.ask('list %d %s' % (len(itemsA), show_items(itemsA)))
         chk.corr(2)
-        impl_list = 'ok ' + show_rows(rows_src)
+        impl_list = 'ok ' + show_rows(lenient(rows_src))
         if ans_list.strip() != impl_list.strip():
             chk.corr_diff(case, impl_list, ans_list, 'list_fields_and_values(source) as rows')
     if exc is not None:
@@ -324,22 +379,25 @@ def run_case(chk, drv, case, tmpdir=None, lexical=False):
     with contextlib.redirect_stdout(io.StringIO()):
         rows_out = UserFields(io.BytesIO(out.getvalue()), io.BytesIO()).list_fields_and_values()
     if drv is not None:
-        itemsB = items_of(B, ordered_decl_attrs(B), intern, akeys)
-        impl = 'ok ' + show_items(itemsB) + ' ; ' + show_rows(rows_out)
+        itemsB = len_items(items_of(B, ordered_decl_attrs(B), intern, akeys))
+        impl = 'ok ' + show_items(itemsB) + ' ; ' + show_rows(lenient(rows_out))
         if ' '.join(ans.split()) != ' '.join(impl.split()):
             chk.corr_diff(case, impl[:3000], ans[:3000], 'items of content.xml+styles.xml after update ; rows listed from the output')
     if lexical:
         return fails
     # ---------------- oracle 1: listing the output
     want_out = [(n, t, (data[n] if n in data else v)) for n, t, v in want_src]
-    if sorted(map(repr, rows_out)) != sorted(map(repr, want_out)):
-        bad = [(g, w) for g, w in zip(rows_out, want_out) if g != w][:3]
+    if sorted(map(repr, lenient(rows_out))) != sorted(map(repr, lenient(want_out))):
+        bad = [(g, w) for g, w in zip(rows_out, want_out) if lenient(g) != lenient(w)][:3]
         fail('listing-after-update', 'list_fields_and_values(output) differs from the expectation (got, want): %r' % (bad,))
     # ---------------- oracle 2: the declarations themselves, against the SOURCE
     out_decls = ufgen.read_decls(B)
     want_decls = [ref_update_decl(d, data) for d in src_decls]
-    if out_decls != want_decls:
-        bad = [(g, w) for g, w in zip(out_decls, want_decls) if g != w][:2]
+    rows_xml = ref_rows(out_decls)
+    if sorted(map(repr, rows_out)) != sorted(map(repr, rows_xml)):
+        fail('listing-after-update', 'list_fields_and_values(output) = %r, an independent XML reading of the output gives %r' % (rows_out, rows_xml))
+    if lenient(out_decls) != lenient(want_decls):
+        bad = [(g, w) for g, w in zip(out_decls, want_decls) if lenient(g) != lenient(w)][:2]
         fail('frame-fields', 'declarations of the output are not the source declarations with the named value attributes replaced: %r' % (bad,))
     # ---------------- oracle 3: frame, member by member, against a plain load+save
     if [n for n, _ in A] != [n for n, _ in B]:
@@ -349,8 +407,8 @@ def run_case(chk, drv, case, tmpdir=None, lexical=False):
         if name not in dB:
             continue
         if name in XML_MEMBERS:
-            ta = ufgen.canon(ref_update_tree(ufgen.parse_tree(dA[name]), data))
-            tb = ufgen.canon(ufgen.parse_tree(dB[name]))
+            ta = lenient(ufgen.canon(ref_update_tree(ufgen.parse_tree(dA[name]), data)))
+            tb = lenient(ufgen.canon(ufgen.parse_tree(dB[name])))
             if ta != tb:
                 fail('frame-xml-' + name.replace('/', '-'), 'infoset of %s after update differs from load+save with the named value attributes replaced' % name)
         else:
@@ -457,11 +515,11 @@ def run_history(chk, drv, case, tmpdir):
                         fail('history-read', '%s: list_fields_and_values() = %r, the source now says %r' % (where, got, want_rows))
                     if drv is not None:
                         intern, akeys = Interner(), Interner()
-                        items = items_of(now_members, ordered_decl_attrs(now_members), intern, akeys)
+                        items = len_items(items_of(now_members, ordered_decl_attrs(now_members), intern, akeys))
                         ans = drv.ask('list %d %s' % (len(items), show_items(items)))
                         chk.corr()
-                        if ans.strip() != ('ok ' + show_rows(got)).strip():
-                            chk.corr_diff(case, 'ok ' + show_rows(got), ans, where + ': rows')
+                        if ans.strip() != ('ok ' + show_rows(lenient(got))).strip():
+                            chk.corr_diff(case, 'ok ' + show_rows(lenient(got)), ans, where + ': rows')
                 elif op == 'names':
                     got = u.list_fields()
                     if sorted(map(repr, got)) != sorted(repr(r[0]) for r in want_rows):
@@ -481,8 +539,8 @@ def run_history(chk, drv, case, tmpdir):
                         fail('source-modified', '%s changed the source' % where)
                     B = ufgen.unzip(out)
                     want_decls = [ref_update_decl(d, data) for d in ufgen.read_decls(now_members)]
-                    if ufgen.read_decls(B) != want_decls:
-                        bad = [(g, w) for g, w in zip(ufgen.read_decls(B), want_decls) if g != w][:2]
+                    if lenient(ufgen.read_decls(B)) != lenient(want_decls):
+                        bad = [(g, w) for g, w in zip(ufgen.read_decls(B), want_decls) if lenient(g) != lenient(w)][:2]
                         fail('history-update', '%s: declarations of the output are not those of the source (as it was when the call '
                              'was made) with the named values replaced: (got, want) %r' % (where, bad))
                     fresh = io.BytesIO()
